@@ -622,6 +622,25 @@ func runC13(c *Ctx) {
 									eofNil = true
 								}
 							}
+							// … or hands nil to the join the result is selected at (the body inlined into a wrapper)
+							eb := b.Succs[0]
+							if len(eb.Succs) == 1 {
+								j := eb.Succs[0]
+								for k, pb := range j.Preds {
+									if pb != eb {
+										continue
+									}
+									for _, in := range j.Instrs {
+										phi, ok := in.(*ssa.Phi)
+										if !ok {
+											break
+										}
+										if phi.Type().String() == "error" && isNilConst(phi.Edges[k]) {
+											eofNil = true
+										}
+									}
+								}
+							}
 						}
 					}
 				}
